@@ -211,8 +211,9 @@ Definition item_eligible (s : settings) (t : ty) : bool :=
 Definition first_eligible (r : registry) (s : settings) (p : list string) : option (N * ty) :=
   find (fun e => path_eqb (t_path (snd e)) p && item_eligible s (snd e)) r.
 
-(** forget the concrete ids stored in parameters (and the derives) *)
-Definition erase_tpi (p : tparam_ir) : tparam_ir := mk_tpi 0 (tpi_orig p) (tpi_idx p).
+(** forget the concrete ids and original names stored in parameters, the docs and the
+    derives: what remains of a parameter is its position *)
+Definition erase_tpi (p : tparam_ir) : tparam_ir := mk_tpi 0 "" (tpi_idx p).
 
 Fixpoint erase_tpath (t : tpath) : tpath :=
   match t with
@@ -237,12 +238,12 @@ Definition erase_ckind (k : ckind) : ckind :=
   end.
 
 Definition erase_ci (c : composite_ir) : composite_ir :=
-  mk_ci (ci_name c) (erase_ckind (ci_kind c)) (ci_docs c).
+  mk_ci (ci_name c) (erase_ckind (ci_kind c)) [].
 
 Definition erase_kind (k : kind_ir) : kind_ir :=
   match k with
   | KStruct c => KStruct (erase_ci c)
-  | KEnum nm docs vs => KEnum nm docs (map (fun x => (fst x, erase_ci (snd x))) vs)
+  | KEnum nm _ vs => KEnum nm [] (map (fun x => (fst x, erase_ci (snd x))) vs)
   end.
 
 Definition erase_ids (ir : type_ir) : type_ir :=
